@@ -54,6 +54,17 @@ Theorem C08_prop_of_run : forall v i,
 Proof. exact prop_of_run. Qed.
 Print Assumptions C08_prop_of_run.
 
+(* The same for the topologies whose in-cluster selection always fails (primary sub-cluster without backend: Balance raises
+   RetryTime to RetryMax and selects across sub-clusters; no backend anywhere: ErrBkCrossRetryBalance until the budget is
+   used up): every observation the model allows satisfies prop_body_x (bounded; at most CrossRetry + 1 attempts, none when
+   cross retry is disabled or nothing has a backend; resend only if safe; never replayed; only backends of the other
+   sub-cluster). *)
+Theorem C08_prop_of_model_x : forall i choices o,
+  0 <= retry_max (i_cfg i) -> 0 <= cross_retry (i_cfg i) ->
+  model_obs_x i choices = Some o -> prop_body_x i o = true.
+Proof. exact prop_of_model_x. Qed.
+Print Assumptions C08_prop_of_model_x.
+
 (* Non-vacuity. *)
 Example C08_get_retried :
   attempts (mkCfg 2 1 1) (mkReq true true) [EvAttempt false ReadHdrErr; EvAttempt false ConnectErr; EvAttempt false WriteErr; EvAttempt false Ok; EvAttempt false Ok]
